@@ -10,9 +10,13 @@ RULE = ("for each listed pair of configurations both models are fitted on the sa
         "mode by mode up to the sign (phase for complex data) of each mode: singular values, patterns at each label, scores; multi-set vs cross-set "
         "CCA: canonical correlations only; non-trivial: >= 8 samples and >= 2 features per field; distinct by input hash")
 PARTIAL = ["SparsePCA without penalty vs EOF and two-view multi-set CCA vs cross-set CCA go through iterative / generalised-eigen solvers with no "
-           "algebraic model: compared on the implementation only", "Complex model on real data: compared on the implementation (the model is one polymorphic term)"]
+           "algebraic model: compared on the implementation only",
+           "Complex model on real data: proved for the EOF model and the cross-set core (C10_complex_eof_on_real_data, C10_complex_cross_on_real_data: "
+           "the model commutes with the embedding of the reals into the complex numbers); the Hilbert variants and the preprocessing around the core "
+           "are compared on the implementation"]
 REFUTED = []
-TRUSTED = ["constants regenerated from mca.py / cca.py / rda.py (T5cpcca)", "Coq.Reals axioms in C10_whitener_identity_at_one"]
+TRUSTED = ["constants regenerated from mca.py / cca.py / rda.py (T5cpcca)", "Coq.Reals axioms in C10_whitener_identity_at_one and in the C10_complex_* theorems "
+           "(Coquelicot's complex numbers over Coq's reals)"]
 ASSUMES = ["spectral gap between retained modes in generated data"]
 
 
